@@ -361,10 +361,11 @@ example : ntop4Text [192, 168, 0, 1] = bytesOf "192.168.0.1" ∧
     pton4 (bytesOf "192.168.0.1" ++ [0]) = some [192, 168, 0, 1] := by decide
 
 /-- THE GRAMMAR of `inet_pton4`: accepted are exactly four decimal fields separated by single
-    dots, each one or more digits — LEADING ZEROS and any number of digits are allowed (BSD
-    lineage; glibc rejects them: a logged platform difference) — with value ≤ 255 (`DecOctet`);
-    the result is the four values.  Hence four bytes < 256; 256, empty fields, signs, blanks, a
-    trailing dot, three or five fields are rejected. -/
+    dots, each ONE TO THREE digits — LEADING ZEROS are allowed (POSIX inet_pton: "ddd ... a one to
+    three digit decimal number between 0 and 255"; glibc rejects them: a logged platform
+    difference; fields of four and more digits were accepted before F42) — with value ≤ 255
+    (`DecOctet`); the result is the four values.  Hence four bytes < 256; 256, empty fields,
+    signs, blanks, a trailing dot, three or five fields, "0000" are rejected. -/
 theorem pton4_spec (s v : Bytes) :
     (pton4 s = some v ↔
       ∃ d1 d2 d3 d4 v1 v2 v3 v4, cstr s = d1 ++ cDot :: (d2 ++ cDot :: (d3 ++ cDot :: d4)) ∧
@@ -375,10 +376,12 @@ theorem pton4_spec (s v : Bytes) :
 example : pton4 (bytesOf "1.2.3.256" ++ [0]) = none ∧ pton4 (bytesOf "1..2.3" ++ [0]) = none ∧
     pton4 (bytesOf "1.2.3" ++ [0]) = none ∧ pton4 (bytesOf "1.2.3.4.5" ++ [0]) = none ∧
     pton4 (bytesOf "1.2.3.4." ++ [0]) = none ∧ pton4 (bytesOf " 1.2.3.4" ++ [0]) = none ∧
-    pton4 (bytesOf "255.00.0000.010" ++ [0]) = some [255, 0, 0, 10] ∧
-    DecOctet (bytesOf "0000") 0 ∧ DecOctet (bytesOf "010") 10 := by
-  refine ⟨by decide, by decide, by decide, by decide, by decide, by decide, by decide, ?_, ?_⟩ <;>
-    exact ⟨by decide, by decide, by decide, by decide⟩
+    pton4 (bytesOf "255.00.000.010" ++ [0]) = some [255, 0, 0, 10] ∧
+    pton4 (bytesOf "255.00.0000.010" ++ [0]) = none ∧ pton4 (bytesOf "1.2.3.0255" ++ [0]) = none ∧
+    ¬ DecOctet (bytesOf "0000") 0 ∧ DecOctet (bytesOf "010") 10 := by
+  refine ⟨by decide, by decide, by decide, by decide, by decide, by decide, by decide, by decide, by decide, ?_, ?_⟩
+  · intro h; exact absurd h.2.2.2.2 (by decide)
+  · exact ⟨by decide, by decide, by decide, by decide, by decide⟩
 
 /-- `inet_ntop4/6` size handling: ENOSPC (nothing written) iff text + terminator do not fit;
     otherwise exactly text + NUL is stored and the rest of the buffer is untouched -/
@@ -428,7 +431,7 @@ example : pton6 (ntop6Text [0x20, 0x01, 0x0d, 0xb8, 0, 0, 0, 0, 0, 1, 0, 0, 0, 0
 /-- THE GRAMMAR of `inet_pton6` (`Sentence6`): a text is accepted iff it is
     * groups of 1–4 hex digits (either case, leading zeros allowed) separated by single colons,
     * with at most one `::` (standing for at least one zero group),
-    * optionally a dotted quad as the LAST item (what `inet_pton4` accepts, first field ≤ 4 digits),
+    * optionally a dotted quad as the LAST item (what `inet_pton4` accepts: since F42 fields of one to three digits),
     * making 8 groups without `::` and at most 7 with it (a quad counts for two);
     and the result is the groups before `::`, the zero fill, the groups after it, the quad.
     Both directions; it is always sixteen bytes. -/
@@ -526,8 +529,11 @@ example : Decodes utf8Mbr [97, 0xc3, 0xa9] [(1, 97), (2, 0xe9)] :=
 
 /-- `mbsnrtowcs` with room in `dst`, every way the scan can end (`DecodesTo`): input used up →
     the count and `*src` just past the `srclen` bytes; NUL character → the count without the NUL,
-    the terminating 0 stored, `*src = NULL`; invalid or incomplete sequence → (size_t)-1 and `*src`
-    AT the offending sequence; always exactly the decoded codes at the front of `dst`, nothing else -/
+    the terminating 0 stored, `*src = NULL`; invalid sequence → (size_t)-1 and `*src` AT the offending
+    sequence; the input ends inside a character (`cut`, F43) → the count of the complete characters and
+    `*src` just past the `srclen` bytes (POSIX: "it is unspecified whether conversion stops at the end
+    of the previous character (if any), or at the end of the input buffer"; it used to be (size_t)-1
+    without EILSEQ); always exactly the decoded codes at the front of `dst`, nothing else -/
 theorem mbsnrtowcs_stop_spec (mbr : Bytes → MbRes) (src : Bytes) (srclen : Nat) (d : List Nat)
     (cs : List (Nat × Nat)) (st : MbStop) (rem : Bytes) (hs : srclen ≤ src.length)
     (hd : DecodesTo mbr (src.take srclen) cs st rem) (hfit : cs.length < d.length) :
@@ -535,13 +541,19 @@ theorem mbsnrtowcs_stop_spec (mbr : Bytes → MbRes) (src : Bytes) (srclen : Nat
       match st with
       | .endOfInput => ⟨some cs.length, some srclen, cs.map (·.2) ++ d.drop cs.length⟩
       | .nul => ⟨some cs.length, none, cs.map (·.2) ++ 0 :: d.drop (cs.length + 1)⟩
-      | .bad => ⟨none, some (srclen - rem.length), cs.map (·.2) ++ d.drop cs.length⟩ :=
+      | .bad => ⟨none, some (srclen - rem.length), cs.map (·.2) ++ d.drop cs.length⟩
+      | .cut => ⟨some cs.length, some srclen, cs.map (·.2) ++ d.drop cs.length⟩ :=
   mbsnrtowcs_stop mbr src srclen d cs st rem hs hd hfit
 
 example : DecodesTo utf8Mbr [97, 0xff, 98] [(1, 97)] .bad [0xff, 98] ∧
     mbsnrtowcs utf8Mbr [97, 0xff, 98] 3 (some [7, 7, 7]) = ⟨none, some 1, [97, 7, 7]⟩ := by
   refine ⟨?_, by decide⟩
   exact .cons _ 1 97 _ _ _ (by decide) (by decide) (by decide) (by decide) (.invalid _ (by decide) (by decide))
+
+example : DecodesTo utf8Mbr [97, 0xc3] [(1, 97)] .cut [0xc3] ∧
+    mbsnrtowcs utf8Mbr [97, 0xc3, 0xa9] 2 (some [7, 7, 7]) = ⟨some 1, some 2, [97, 7, 7]⟩ := by
+  refine ⟨?_, by decide⟩
+  exact .cons _ 1 97 _ _ _ (by decide) (by decide) (by decide) (by decide) (.incomplete _ (by decide) (by decide))
 
 /-- the unrepaired `mbsnrtowcs` assigned `*src` with a NULL destination -/
 theorem mbsnrtowcs_unrepaired_violates :
